@@ -3,16 +3,20 @@
 (* RFC 8259 numeral (history = the string), and checks on every numeral that the          *)
 (* implementation-shaped scanner/normaliser (NumScan) agrees with the exact value (Num).   *)
 (* With Export it prints one case per numeral for the conformance harness.                 *)
-EXTENDS Integers, Sequences, TLC, Json
-CONSTANTS Alphabet, MaxLen, Export, PairLen, ZeroMantissaExpRejected, SignBeforeZero
+EXTENDS Integers, Sequences, FiniteSets, TLC, Json
+CONSTANTS Alphabet, MaxLen, MaxExpDigits, Export, PairLen, ZeroMantissaExpRejected, SignBeforeZero
 R == INSTANCE Num
 I == INSTANCE NumScan
 
+\* digits of the exponent part: bounded, so that longer strings do not mean astronomically long normal forms
+ExpDigits(t) == LET P == {i \in DOMAIN t : t[i] \in {101, 69}} IN
+                IF P = {} THEN 0 ELSE LET p == CHOOSE i \in P : TRUE IN Cardinality({j \in (p + 1)..Len(t) : t[j] \in 48..57})
 VARIABLE s
 Init == s = <<>>
 Next == /\ Len(s) < MaxLen
         /\ \E c \in Alphabet :
              /\ R!NumRun("start", Append(s, c)) # "dead"
+             /\ ExpDigits(Append(s, c)) <= MaxExpDigits
              /\ s' = Append(s, c)
              /\ (Export /\ R!IsNumeral(s') =>
                    PrintT("@@CASE " \o ToJson([num |-> s', nf |-> R!NF(s'), fraclen |-> R!FracLen(R!NF(s')), intclass |-> R!IntClass(s'),
